@@ -140,6 +140,14 @@ def c17(cfg):
     ob("rmatmat P.rmatmat(M)", lambda: P.rmatmat(M), mv(symc.dagger(D), M))
     ob("left v@P", lambda: v @ P, mv(D.T, v))
     ob("left W@P", lambda: Mr @ P, symc.mm(Mr, D))
+    # other operand shapes / entry points of the operator interface
+    col = np.asarray(v, dtype=object).reshape(-1, 1)
+    ob("shape P.matvec(column)", lambda: P.matvec(col), mv(D, col))
+    ob("shape P.rmatvec(column)", lambda: P.rmatvec(col), mv(symc.dagger(D), col))
+    ob("shape P.dot(M)", lambda: P.dot(M), mv(D, M))
+    ob("shape P(v)", lambda: P(v), mv(D, v))
+    ob("shape P.H.matmat(M)", lambda: P.H.matmat(M), mv(symc.dagger(D), M))
+    ob("shape P.T.rmatmat(M)", lambda: P.T.rmatmat(M), mv(_conj_dense(D), M))
     # chains of .T / .H / conjugate()
     chains = [c for L_ in range(1, cfg.get("chain", 2) + 1) for c in itertools.product("THC", repeat=L_)]
     for ch in chains:
@@ -181,6 +189,10 @@ def c17(cfg):
     return rec
 
 
+def _conj_dense(D):
+    return symc.dagger(D).T
+
+
 def _numeric_replay(cfg, model, name):
     """Concrete complex numpy replay of one named obligation at the model point (real public operator API)."""
     from pymablock.linalg import ComplementProjector
@@ -220,6 +232,9 @@ def _numeric_replay(cfg, model, name):
         ("matvec", "P@v"): (lambda: P @ v, D @ v), ("matmat", "P@M"): (lambda: P @ M, D @ M),
         ("rmatvec", "P.rmatvec(v)"): (lambda: P.rmatvec(v), D.conj().T @ v), ("rmatmat", "P.rmatmat(M)"): (lambda: P.rmatmat(M), D.conj().T @ M),
         ("left", "v@P"): (lambda: v @ P, v @ D), ("left", "W@P"): (lambda: W @ P, W @ D),
+        ("shape", "P.matvec(column)"): (lambda: P.matvec(v.reshape(-1, 1)), (D @ v).reshape(-1, 1)), ("shape", "P.rmatvec(column)"): (lambda: P.rmatvec(v.reshape(-1, 1)), (D.conj().T @ v).reshape(-1, 1)),
+        ("shape", "P.dot(M)"): (lambda: P.dot(M), D @ M), ("shape", "P(v)"): (lambda: P(v), D @ v),
+        ("shape", "P.H.matmat(M)"): (lambda: P.H.matmat(M), D.conj().T @ M), ("shape", "P.T.rmatmat(M)"): (lambda: P.T.rmatmat(M), D.conj() @ M),
         ("composite", "PAP@v"): (lambda: PAP @ v, DAD @ v), ("composite", "PAP@M"): (lambda: PAP @ M, DAD @ M), ("composite", "W@PAP"): (lambda: W @ PAP, W @ DAD),
         ("composite", "v@PAP"): (lambda: v @ PAP, v @ DAD), ("composite", "PAP.H@v"): (lambda: PAP.H @ v, DAD.conj().T @ v), ("composite", "PAP.T@v"): (lambda: PAP.T @ v, DAD.T @ v),
         ("composite", "PAP.rmatvec"): (lambda: PAP.rmatvec(v), DAD.conj().T @ v), ("composite", "(P+P)@v"): (lambda: (P + P) @ v, 2 * D @ v), ("composite", "(2P).H@v"): (lambda: (2 * P).H @ v, 2 * D.conj().T @ v),
